@@ -1173,6 +1173,9 @@ def d2_argmin_branch(ck):
     fn = mod.func(F)
     fi = finfo(mod, fn)
     rets = [e for _, e in _ret_tuples(fi, fn, 2) if e]
+    # the exit that hands out the arrays the sweeps store into (other exits are judged by
+    # C01.D2.metric-source / C01.D4.result.unpack)
+    rets = [e for e in rets if all(isinstance(x, ast.Name) for x in e)] or rets
     if not rets or not all(isinstance(x, ast.Name) for x in rets[0]):
         ck.missing(rule, '%s: `return <labels>, <distances>` not found' % F)
         return
@@ -3525,6 +3528,286 @@ def d1_index_format(ck):
     ck.floor(rule, n, 8, 'format-specific constructs')
 
 
+# ---------------------------------------------------------------------------
+# sixth wave: the two arrays of the commit test are different objects, and the
+# reported distances flow from the metric parameter on every exit
+
+def _alias_verdicts(fi, name, at, target, tdefs, depth=6, seen=None):
+    """{('alias', site) | ('fresh', site) | ('unknown', site)}: may the value of
+    `name` at statement `at` share storage with the array `target` (whose
+    reaching definitions at the place of interest are `tdefs`)?  View-making
+    steps are those of sa/effects.py (frozen tables); everything else makes a
+    fresh object."""
+    from ..effects import VIEW_ATTRS, VIEW_FUNCS, VIEW_METHODS
+    seen = set() if seen is None else seen
+    out = set()
+
+    def of_expr(e, site, d):
+        if d <= 0:
+            return {('unknown', site)}
+        if isinstance(e, ast.Name):
+            if e.id == target:
+                same = fi.rd.defs_at(site, target) == tdefs if site in fi.cfg.succ else False
+                return {('alias' if same else 'unknown', site)}
+            key = (e.id, id(site))
+            if key in seen:
+                return set()
+            seen.add(key)
+            sub = _alias_verdicts(fi, e.id, site, target, tdefs, d - 1, seen)
+            # the statement to name is the one that made the alias visible under `name`
+            return {(k, site if k == 'alias' else s) for k, s in sub}
+        if isinstance(e, ast.IfExp):
+            return of_expr(e.body, site, d) | of_expr(e.orelse, site, d)
+        if isinstance(e, ast.Subscript):
+            sl = e.slice
+            basic = isinstance(sl, ast.Slice) or (isinstance(sl, ast.Constant) and sl.value is Ellipsis) or (
+                isinstance(sl, ast.Tuple) and all(isinstance(x, ast.Slice) or (
+                    isinstance(x, ast.Constant) and (x.value is Ellipsis or x.value is None)) for x in sl.elts))
+            return of_expr(e.value, site, d) if basic else {('fresh', site)}
+        if isinstance(e, ast.Attribute):
+            return of_expr(e.value, site, d) if e.attr in VIEW_ATTRS else {('fresh', site)}
+        if isinstance(e, ast.Call):
+            cn = call_name(e) or ''
+            if isinstance(e.func, ast.Attribute) and not cn.startswith(('np.', 'numpy.')):
+                if e.func.attr in VIEW_METHODS:
+                    return of_expr(e.func.value, site, d)
+                if e.func.attr == 'astype':
+                    cp = kwarg(e, 'copy')
+                    if cp is not None and not (isinstance(cp, ast.Constant) and cp.value is True):
+                        return of_expr(e.func.value, site, d)
+                return {('fresh', site)}
+            full = 'np.' + cn.split('.', 1)[1] if cn.startswith('numpy.') else cn
+            if full in VIEW_FUNCS and e.args:
+                return of_expr(e.args[0], site, d)
+            if full == 'np.array' and e.args:
+                cp = kwarg(e, 'copy')
+                if cp is not None and not (isinstance(cp, ast.Constant) and cp.value is True):
+                    return of_expr(e.args[0], site, d)
+            return {('fresh', site)}
+        return {('fresh', site)}
+
+    for site in fi.rd.defs_at(at, name):
+        if site == 'UNBOUND':
+            continue
+        if site == 'PARAM':
+            out.add(('alias' if name == target and 'PARAM' in tdefs else 'fresh', site))
+            continue
+        v = fi.def_value(site, name)
+        if v is None:
+            out.add(('unknown', site))
+            continue
+        out |= of_expr(v, site, depth)
+    return out
+
+
+def d2_candidate_fresh(ck):
+    """The commit test `candidate < current` compares two DIFFERENT arrays: the
+    candidate holds the distances to the one new centre, the current array the
+    running minimum.  If a definition of the candidate that reaches the test
+    is the current array itself (a name bound to it, a view of it - the dropped
+    `.copy()`), every store into the candidate lands in the running minimum
+    without a label store, and the test compares the array with itself: it is
+    nowhere true, so no frame - not even the new centre - is handed over."""
+    rule = 'C01.D2.commit.candidate-fresh'
+    n = 0
+    for rel, F in ((KC, '_kcenters_iteration'), (KC, '_kcenters_iteration_mpi'), (CU, 'assign_to_nearest_center')):
+        mod = ck.repo.mod(rel)
+        fn = mod.func(F)
+        fi = finfo(mod, fn)
+        ck.analysed(mod, fn)
+        for inst in find_running_min_commits(mod, fn):
+            new, cur, ms = inst['new'], inst['cur'], inst['mask_stmt']
+            n += 1
+            if new == cur:
+                ck.bad(rule, mod, ms, F, u(ms),
+                       'the commit mask compares `%s` with itself: it is nowhere true, nothing is ever committed' % cur)
+                continue
+            tdefs = fi.rd.defs_at(ms, cur)
+            vs = _alias_verdicts(fi, new, ms, cur, tdefs)
+            al = [s for k, s in vs if k == 'alias' and s not in ('PARAM', 'UNBOUND')]
+            if al:
+                for s in al:
+                    muts = [m for m in fi._mutated_in_place(new)
+                            if fi.cfg.reachable(s, m) and fi.cfg.reachable(m, ms)]
+                    ck.bad(rule, mod, s, F, u(s),
+                           'the candidate array `%s` of the commit test `%s` is bound here to the current-distance array '
+                           '`%s` itself, not to a copy: %sthe test then compares the array with itself, is nowhere true, and '
+                           'no frame (not even the new centre) receives the new label - labels and distances go out of step' % (
+                               new, u(ms), cur,
+                               ('`%s` writes candidate distances straight into `%s` whether or not they are smaller, with no '
+                                'label store; ' % (u(muts[0])[:70], cur)) if muts else ''))
+            else:
+                ck.ok(rule, mod, ms, '%s: %s' % (F, u(ms)),
+                      'candidate `%s` and current `%s` are distinct arrays on every path (%d definitions)' % (new, cur, len(vs)))
+    ck.floor(rule, n, 3, 'commit tests')
+
+
+def _value_slice(fi, expr, at, limit=400):
+    """Backward slice of the VALUE of `expr` at statement `at` through reaching
+    definitions and in-place stores: (calls, params, unknown).  calls = every
+    Call node in an expression the value may have been computed by."""
+    calls, pars, unknown = [], set(), []
+    seen_sites, seen_exprs = set(), set()
+    todo = [(expr, at)]
+
+    def stores_into(name, at_, sites):
+        for m in fi._mutated_in_place(name):
+            if m not in fi.cfg.succ or id(m) in seen_sites:
+                continue
+            if not (m is at_ or fi.cfg.reachable(m, at_)):
+                continue
+            if not (fi.rd.defs_at(m, name) & sites):
+                continue
+            seen_sites.add(id(m))
+            for e in ([m.value] if getattr(m, 'value', None) is not None else []):
+                todo.append((e, m))
+            tg = m.targets if isinstance(m, ast.Assign) else [getattr(m, 'target', None)]
+            for t in tg:
+                if isinstance(t, ast.Subscript):
+                    todo.append((t.slice, m))
+
+    while todo and len(seen_exprs) < limit:
+        e, st = todo.pop()
+        if id(e) in seen_exprs:
+            continue
+        seen_exprs.add(id(e))
+        bound = set()
+        for x in ast.walk(e):
+            if isinstance(x, ast.comprehension):
+                bound |= set(target_names(x.target))
+            elif isinstance(x, ast.Lambda):
+                bound |= {a.arg for a in x.args.args}
+        for x in ast.walk(e):
+            if isinstance(x, ast.Call):
+                calls.append((x, st))
+            if not (isinstance(x, ast.Name) and isinstance(x.ctx, ast.Load)) or x.id in bound:
+                continue
+            sites = fi.rd.defs_at(st, x.id) if st in fi.cfg.succ else set()
+            for site in sites:
+                if site == 'PARAM':
+                    pars.add(x.id)
+                elif site == 'UNBOUND' or id(site) in seen_sites:
+                    continue
+                else:
+                    seen_sites.add(id(site))
+                    if isinstance(site, (ast.Assign, ast.AnnAssign, ast.AugAssign)) and site.value is not None:
+                        todo.append((site.value, site))
+                    elif isinstance(site, (ast.For, ast.AsyncFor)):
+                        todo.append((site.iter, site))
+                    elif isinstance(site, (ast.With, ast.AsyncWith)):
+                        for it in site.items:
+                            todo.append((it.context_expr, site))
+                    elif isinstance(site, (ast.Import, ast.ImportFrom, ast.FunctionDef, ast.ClassDef)):
+                        pass
+                    else:
+                        unknown.append(site)
+            if sites:
+                stores_into(x.id, st, sites)
+    return calls, pars, unknown
+
+
+_SHAPE_ONLY = ('len', 'range', 'enumerate', 'isinstance', 'hasattr', 'getattr', 'type', 'int', 'float', 'print')
+
+
+def d2_metric_source(ck):
+    """Every reported distance is a value RETURNED BY the metric callable the
+    caller handed in.  On every exit of the three producers of (labels,
+    distances) the value of the distance component is traced back through
+    reaching definitions and in-place stores: it has to flow from a call of the
+    metric parameter.  An exit whose distances are computed from the data by
+    some OTHER function (a library routine, a closed formula) reports numbers
+    the metric never returned - for a user callable they are unrelated, for a
+    built-in kernel they agree at best up to rounding - while all other exits
+    and every consumer compare against the metric's own values."""
+    rule = 'C01.D2.metric-source'
+    n = 0
+    for rel, F, arity, pos in ((CU, 'assign_to_nearest_center', 2, 1), (KC, '_kcenters_iteration', 4, 1),
+                               (KC, '_kcenters_iteration_mpi', 4, 1)):
+        mod = ck.repo.mod(rel)
+        fn = mod.func(F)
+        fi = finfo(mod, fn)
+        ck.analysed(mod, fn)
+        ps = params(fn)
+        P0 = ps[0]
+        metrics = set()
+        for c in calls_in(fn):
+            if isinstance(c.func, ast.Name) and c.func.id in ps:
+                try:
+                    if fi.defs_of_use(c.func) == {'PARAM'}:
+                        metrics.add(c.func.id)
+                except Exception:
+                    pass
+        if not metrics:
+            ck.missing(rule, '%s: no parameter is called as the metric' % F)
+            continue
+        # names the function compares the metric with (`metric is euclidean`): calling those is calling the metric
+        twins_of_metric = set()
+        for cmpn in [x for x in ast.walk(fn) if isinstance(x, ast.Compare) and len(x.ops) == 1]:
+            a, b = cmpn.left, cmpn.comparators[0]
+            for p, q in ((a, b), (b, a)):
+                if isinstance(p, ast.Name) and p.id in metrics and isinstance(q, (ast.Name, ast.Attribute)):
+                    twins_of_metric.add(u(q))
+        for r, elts in _ret_tuples(fi, fn, arity):
+            if r not in fi.cfg.succ:
+                continue
+            e = elts[pos] if elts else r.value
+            if e is None:
+                continue
+            calls, pars, unknown = _value_slice(fi, e, r)
+            via_metric = delegated = via_twin = False
+            other = []
+            for c, st in calls:
+                f = c.func
+                rf = fi.resolve(f) if isinstance(f, ast.Name) else f
+                if isinstance(rf, ast.Name) and rf.id in metrics and (rf is not f or fi.defs_of_use(f) == {'PARAM'}):
+                    via_metric = True
+                    continue
+                if u(f) in twins_of_metric:
+                    via_twin = True
+                    continue
+                argn = [x for a in list(c.args) + [k.value for k in c.keywords] for x in ast.walk(a)]
+                if any(isinstance(x, ast.Name) and x.id in metrics for x in argn):
+                    delegated = True
+                    continue
+                cn = call_name(c) or u(f)
+                if _last(cn) in _SHAPE_ONLY or _last(cn) in _ALLOCATORS:
+                    continue
+                uses_data = False
+                for a in list(c.args) + [k.value for k in c.keywords] + (
+                        [f.value] if isinstance(f, ast.Attribute) else []):
+                    try:
+                        xa = fi.expand(a, strict=False)
+                    except Exception:
+                        xa = a
+                    if any(isinstance(x, ast.Name) and x.id == P0 for x in ast.walk(xa)):
+                        uses_data = True
+                if uses_data and not (isinstance(f, ast.Attribute) and isinstance(f.value, ast.Name) and f.value.id == P0):
+                    other.append((c, st))
+            construct = u(r)[:120]
+            if via_metric or delegated:
+                n += 1
+                ck.ok(rule, mod, r, '%s: %s' % (F, construct),
+                      'the distances reported on this exit flow from %s' % (
+                          'a call of the metric parameter' if via_metric else 'a helper that is handed the metric'))
+            elif via_twin or unknown:
+                ck.missing(rule, '%s: cannot relate the distances of `%s` to the metric parameter `%s`' % (
+                    F, construct[:60], '/'.join(sorted(metrics))))
+            elif other:
+                c, st = other[0]
+                n += 1
+                ck.bad(rule, mod, st, F, u(st)[:160],
+                       'the distances reported by `%s` are computed from the data `%s` by `%s`, and no call of the metric '
+                       'parameter `%s` feeds them: the reported distance is then not the value the metric returns for that '
+                       'frame and its centre (another formula / another rounding; unrelated numbers for a user callable), '
+                       'while the other exits and every consumer (running-minimum commit, PAM reassignment, the strict '
+                       '"no centre closer" comparison) use the metric\'s own values' % (
+                           construct[:60], P0, (call_name(c) or u(c.func))[:60], '/'.join(sorted(metrics))))
+            else:
+                ck.missing(rule, '%s: the distances of `%s` do not flow from a call of the metric parameter `%s`' % (
+                    F, construct[:60], '/'.join(sorted(metrics))))
+    ck.floor(rule, n, 3, 'exits of the (labels, distances) producers')
+
+
 def check(ck):
     d1_lockstep(ck)
     d1_warmstart(ck)
@@ -3542,6 +3825,8 @@ def check(ck):
     n += check_running_min_commit(ck, 'C01.D2.commit', cu, 'assign_to_nearest_center',
                                   False, 'enumerate-index')
     ck.floor('C01.D2.commit', n, 3, 'running-minimum commits')
+    d2_candidate_fresh(ck)
+    d2_metric_source(ck)
     d2_argmin_branch(ck)
     d2_shortcut_optin(ck)
     d2_metric_args(ck)
